@@ -110,7 +110,7 @@ def structures(ident, tier, seed=0):
     out = []
     if k == 'msm':
         if tier == 'quick':
-            out += [dict(nsat=0, nsig=0, cellmask='zero'), dict(nsat=1, nsig=1, cellmask='ones'),
+            out += [dict(nsat=0, nsig=0, cellmask='zero'), dict(nsat=1, nsig=1, cellmask='ones'), dict(nsat=2, nsig=1, cellmask=seed + 2),
                     dict(nsat=2, nsig=2, cellmask=seed + 5, maskmode='value', seed=seed),
                     dict(nsat=3, nsig=2, cellmask=seed + 6, maskmode='value', seed=seed + 1)]
         else:
@@ -132,9 +132,10 @@ def structures(ident, tier, seed=0):
         if not keys:
             out.append(dict(mode=('uniform', 1)))
         else:
-            cs = (0, 1, 2) if tier == 'quick' else (0, 1, 2, 3, 4)
+            cs = (0, 1, 2, 3) if tier == 'quick' else (0, 1, 2, 3, 4, 5)
             out += [dict(mode=('uniform', c)) for c in cs]
             out.append(dict(mode=('seeded', 2), seed=seed + 1))
+            out.append(dict(mode=('seeded', 3), seed=seed + 4))
             if tier != 'quick':
                 out += [dict(mode=('seeded', 4), seed=seed + s) for s in (2, 3)]
                 out += [dict(mode=('maxone', key)) for key in keys]
